@@ -343,6 +343,17 @@ def run(ctx):
         ctx.extra['native_boundary_vectors'] = n_vec
     except Exception as e:   # noqa
         ctx.inconclusive.append('native replay crate unavailable: %s' % str(e)[-500:])
+    # engine M: how a frame is read off the stream (read_n_bytes / read_network_message) for every split of the stream into reads - runs while Kani works
+    try:
+        from exec import Inconclusive, Unmodelled
+        import cluster
+        import C19_stream
+        try:
+            C19_stream.check(ctx, cluster.load()[0])
+        except (Inconclusive, Unmodelled) as e:
+            ctx.inconclusive.append('C19 stream slice: %s: %s' % (type(e).__name__, str(e)[:300]))
+    except ImportError as e:
+        ctx.inconclusive.append('C19 stream slice unavailable: %s' % e)
     th.join()
     if 'exc' in box:
         raise box['exc']
@@ -374,6 +385,11 @@ def run(ctx):
 def replay_file(path):
     d = json.load(open(path))
     rp = d.get('replay') or {}
+    if rp.get('which') == 'stream':
+        import C19_stream_replay
+        r = C19_stream_replay.replay(rp['want'], tuple(rp['reads']))
+        print(r['detail'])
+        return 1 if r['replayed'] else 0
     if 'kind' not in rp:
         print('unknown replay scenario')
         return 2
